@@ -14,6 +14,7 @@ def correspondence_observed(ctx, domain, drv_args, annotate, gen_args=(), hx_env
     so replays are self-contained."""
     c = K.Corr()
     hx = os.path.join(K.BIN, "hx")
+    ops_text_given = ops_text
     if ops_text is None:
         rc, out = K.sh([hx, "gen", domain, "-seed", str(ctx.seed), "-tier", ctx.tier, *gen_args], timeout=timeout)
         if rc != 0:
@@ -58,6 +59,11 @@ def correspondence_observed(ctx, domain, drv_args, annotate, gen_args=(), hx_env
         if a != b:
             c.mismatch.append(i)
     c.cases = K.split_cases(c.ops)
+    # common.recheck_slow_cases would re-run the ANNOTATED ops (a stale observation): the re-check of timing-shaped
+    # mismatches is done here, on the original ops, with a fresh observation
+    c.no_recheck = True
+    if ops_text_given is None:
+        _recheck_slow(ctx, domain, drv_args, annotate, c, ops, hx_env)
     for l in c.ops:
         k = l.split(" ", 1)[0]
         c.op_hist[k] = c.op_hist.get(k, 0) + 1
@@ -65,6 +71,60 @@ def correspondence_observed(ctx, domain, drv_args, annotate, gen_args=(), hx_env
         k = " ".join(l.split(" ")[:1] + [w for w in l.split(" ")[2:3] if not w.startswith("q=")])
         c.reply_hist[k] = c.reply_hist.get(k, 0) + 1
     return c
+
+
+_SLOW = re.compile(r"\b(hang|hung|timeout|timed-out|stuck|broken|aborted|unexpected-timeout|err)\b")
+
+
+def _recheck_slow(ctx, domain, drv_args, annotate, c, raw_ops, hx_env, max_cases=4):
+    """Same policy as common.recheck_slow_cases: a mismatch whose implementation reply is timing-shaped is re-run
+    ALONE with HX_TIMEOUT_SCALE=6 and believed only if it reproduces."""
+    if c.err or not c.mismatch:
+        return
+    todo, seen = [], set()
+    for i in c.mismatch:
+        cs = K.case_of(c, i)
+        if cs[0] in seen:
+            continue
+        seen.add(cs[0])
+        if not _SLOW.search(c.impl[i] if i < len(c.impl) else ""):
+            return
+        todo.append(cs)
+    if len(todo) > max_cases:
+        return
+    keep = {}
+    for ext in (".ops", ".impl", ".model"):
+        try:
+            keep[ext] = open(ctx.path(domain + ext)).read()
+        except OSError:
+            pass
+    fixed = 0
+    try:
+        for cs in todo:
+            ops = [raw_ops[i] for i in cs if i < len(raw_ops)]
+            if not ops or not ops[0].startswith("case "):
+                return
+            env = dict(hx_env or {}, HX_TIMEOUT_SCALE="6")
+            r = correspondence_observed(ctx, domain, drv_args, annotate, hx_env=env, ops_text="\n".join(ops) + "\n", timeout=1800)
+            if r.err or r.mismatch or len(r.impl) != len(ops):
+                return
+            for k, i in enumerate(cs):
+                c.ops[i] = r.ops[k]
+                if i < len(c.impl):
+                    c.impl[i] = r.impl[k]
+                if i < len(c.model):
+                    c.model[i] = r.model[k]
+                    c.flags[i] = r.flags[k]
+            fixed += 1
+    finally:
+        for ext, txt in keep.items():
+            with open(ctx.path(domain + ext), "w") as f:
+                f.write(txt)
+        c.mismatch = [i for i in range(max(len(c.ops), len(c.impl), len(c.model)))
+                      if (c.impl[i] if i < len(c.impl) else "<missing>") != (c.model[i] if i < len(c.model) else "<missing>")]
+        if fixed:
+            ctx.cov["rechecked_slow_cases"] = ctx.cov.get("rechecked_slow_cases", 0) + fixed
+            ctx.notes.append("%d case(s) of %s with a timing-shaped mismatch agreed when re-run alone with 6x timeouts" % (fixed, domain))
 
 
 _LIST = re.compile(r"(\w+)=\[([^\]]*)\]")
